@@ -282,10 +282,10 @@ fn run_cols(v: &[u64]) {
 // ------------------------------------------------------------------------------------------------ collapse (C11)
 // args: s0 s1 s2 (strings from a 3-element domain so that repeats are frequent), boundary (0 none, 1 clear, 2 merge, 3 clone), depth (0 top, 1 over CIP, 2 in tuple, 3 in slice)
 fn pre_collapse(v: &[u64]) -> bool {
-    v[0] < 3 && v[1] < 3 && v[2] < 3 && v[3] < 4 && v[4] < 4
+    v[0] < 3 && v[1] < 3 && v[2] < 3 && v[3] < 5 && v[4] < 4
 }
 fn doms_collapse() -> Vec<Vec<u64>> {
-    vec![range(3), range(3), range(3), range(4), range(4)]
+    vec![range(3), range(3), range(3), range(5), range(4)]
 }
 fn used<R: Region>(r: &R) -> usize {
     collect_heap(|cb| r.heap_size(cb)).iter().map(|p| p.0).sum()
@@ -331,6 +331,20 @@ where
             vassert!(i2 == fresh_idx, "VF:collapse.after_merge_like_fresh");
             vassert!(m.index(i2) == s[1], "VF:collapse.after_merge_read");
         }
+        4 => {
+            // clone_from into a destination with its own, different history must behave exactly like clone
+            let mut d = R::default();
+            let _ = d.push(s[2]);
+            let _ = d.push(s[0]);
+            d.clone_from(&r);
+            let mut c = r.clone();
+            for probe in [s[1], s[2], s[0]] {
+                let (id, ic) = (d.push(probe), c.push(probe));
+                vassert!(id == ic, "VF:collapse.clone_from_differs_from_clone");
+                vassert!(d.index(id) == probe && c.index(ic) == probe, "VF:collapse.clone_from_read");
+            }
+            vassert!(d.index(i0) == s[0] && d.index(i1) == s[1], "VF:collapse.clone_from_old_reads");
+        }
         _ => {
             let mut c = r.clone();
             let ic = c.push(s[2]);
@@ -373,10 +387,54 @@ fn run_collapse(v: &[u64]) {
     }
 }
 
+// ------------------------------------------------------------------------------------------------ slice over a compressing index container
+// `SliceRegion` is the one caller of `IndexContainer::extend`; with `IndexOptimized` the inner indices of one item can
+// enter and leave the stride inside a single push.
+// args: a0..a4 (alphabet positions), n0 (length of the first item 0..5), form (0 slice, 1 Vec, 2 read item of another region)
+const IDX_ALPHA: [usize; 10] = [0, 1, 2, 3, 4, 5, 6, 7, u32::MAX as usize, u32::MAX as usize + 1];
+fn pre_sio(v: &[u64]) -> bool {
+    all_le(v, 0, 5, 9) && v[5] <= 5 && v[6] < 3
+}
+fn doms_sio() -> Vec<Vec<u64>> {
+    vec![range(10), range(10), range(10), vec![0, 2, 5, 6, 9], vec![0, 1, 6], range(6), range(3)]
+}
+fn run_sio(v: &[u64]) {
+    type R = SliceRegion<MirrorRegion<usize>, IndexOptimized>;
+    let all: Vec<usize> = v[0..5].iter().map(|k| IDX_ALPHA[*k as usize]).collect();
+    let (x, y) = all.split_at(v[5] as usize);
+    let mut r = R::default();
+    let same = |r: &R, i: (usize, usize), want: &[usize]| {
+        let it = r.index(i);
+        vassert!(it.len() == want.len(), "VF:slice_opt.len");
+        for (k, w) in want.iter().enumerate() {
+            vassert!(it.get(k) == *w, "VF:slice_opt.get");
+        }
+        vassert!(it.iter().eq(want.iter().copied()), "VF:slice_opt.iter");
+        vassert!(it.into_owned() == want, "VF:slice_opt.into_owned");
+    };
+    let push = |r: &mut R, w: &[usize]| match v[6] {
+        0 => r.push(w),
+        1 => r.push(w.to_vec()),
+        _ => {
+            let mut o = R::default();
+            let j = o.push(w);
+            r.push(o.index(j))
+        }
+    };
+    let i0 = push(&mut r, x);
+    same(&r, i0, x);
+    let i1 = push(&mut r, y);
+    same(&r, i0, x);
+    same(&r, i1, y);
+    vassert!(i0 == (0, x.len()) && i1 == (x.len(), all.len()), "VF:slice_opt.index");
+}
+
 pub fn harnesses() -> Vec<H> {
     vec![
         H { name: "slice_roundtrip", props: &["C01", "C02", "C20", "C10"], nargs: 10, pre: pre_slice_rt, doms: doms_slice_rt, run: run_slice_rt, panic_ok: false,
             bound: "SliceRegion<MirrorRegion<u8>>: two items of length 0..3, element bytes arbitrary (native: {0,1,255}), four input forms, optional reserve_items/reserve_regions in between; twin fed the canonical form", kani: false },
+        H { name: "slice_index_optimized", props: &["C01", "C02", "C03", "C05", "C20"], nargs: 7, pre: pre_sio, doms: doms_sio, run: run_sio, panic_ok: false,
+            bound: "SliceRegion<MirrorRegion<usize>, IndexOptimized>: five inner indices over a 10-value alphabet {0..7, u32::MAX, u32::MAX+1} split into two items at any point (IndexContainer::extend inside one push), three input forms; both items re-read after each push", kani: false },
         H { name: "slice_nested", props: &["C01", "C02"], nargs: 7, pre: pre_nested, doms: doms_nested, run: run_nested, panic_ok: false,
             bound: "SliceRegion<SliceRegion<MirrorRegion<u8>>>: one earlier item plus an outer item of 0..2 inner vectors of length 0..2, bytes arbitrary", kani: false },
         H { name: "string_compositions", props: &["C01", "C02", "C04", "C12"], nargs: 4, pre: pre_str, doms: doms_str, run: run_str, panic_ok: false,
@@ -386,6 +444,6 @@ pub fn harnesses() -> Vec<H> {
         H { name: "columns_ragged", props: &["C12", "C01", "C02", "C13", "C20"], nargs: 6, pre: pre_cols, doms: doms_cols, run: run_cols, panic_ok: true,
             bound: "ColumnsRegion<MirrorRegion<u8>> with IndexOptimized and Vec<usize> offsets: three rows of width 0..3 in any order, five input forms rotated over the rows, all rows re-read after every push, out-of-bounds probe at any position", kani: false },
         H { name: "collapse_boundaries", props: &["C11", "C08", "C09"], nargs: 5, pre: pre_collapse, doms: doms_collapse, run: run_collapse, panic_ok: false,
-            bound: "CollapseSequence at the top, over ConsecutiveIndexPairs, inside a tuple and inside a slice region: three strings over a 3-value domain; boundaries none / clear / merge_regions / clone", kani: false },
+            bound: "CollapseSequence at the top, over ConsecutiveIndexPairs, inside a tuple and inside a slice region: three strings over a 3-value domain; boundaries none / clear / merge_regions / clone / clone_from into a pre-filled destination", kani: false },
     ]
 }
